@@ -7,9 +7,18 @@ Case:  `fft <f64|f32> [new|default|clone|histclone] ; op ; op ; … ; op`   — 
 the answer is the result of the LAST op (earlier ops are the call history).
 
 ops:  `u n` | `m a b` | `mi a b res` | `f v n` | `fi v n rx ry` | `inv xs ys` | `ii xs ys res` | `fm a b n` | `fmx a b n` | `fmi a b n res`
+      | `fx rpn n res v0 [v1 …]`
       (`fmi` = forward transforms, pointwise product, `fft_inv_into` with the pre-filled destination `res` of any length)
       (`fmx` = forward transforms on this object, inverse transform of the pointwise product on a brand-new one)
+      (`fm`/`fmx`/`fmi` with `n = 0`: each `fft(v, 0)` chooses its own size; made only when both choose the same)
+      (`fx` = forward transforms of all operands, a per-bin expression over them in reverse Polish notation built from
+       the operators of `Complex<F>` — `0`..`9` operand (Copy) / `c0`.. (`.clone()`) / `cf0`.. (`clone_from` into a default()), `Z` `Dz` `O` `I` constants
+       (ZERO, default(), ONE, I), `+ - * /` and their assign forms `+= -= *= /=`, `neg conj abs2 absq`, `s<k>` `s=<k>`
+       (`* k`, `*= k` with `k: F`), `d<k>` `d=<k>` (`/ k`, `/= k`) —, then `fft_inv_into` with destination `res`)
       (vectors are comma lists, `-` = empty)
+pool: there are 4 objects; an op prefixed `@k` is a call on object `k` (default 0, the one the header constructs; 1..3 start
+      as `FFT::new()`); `cl j k` (`k = j.clone()`), `cf j k` (`k.clone_from(&j)`), `df k` (`k = FFT::default()`),
+      `nw k` (`k = FFT::new()`), `tk j k` (`k = std::mem::take(&mut j)`)
 raw : i64 vector results as `[..]` (digest `n=<len>:h=<fnv>` above 48 entries); complex results as bit patterns
 view: `<i64 vector> fresh=<same|diff> oracle=<exact|wrong>` for m / mi / fm,  `fresh=…` for inv / ii,
       `len=<n> fresh=…` for f / fi, where `fresh` compares with the same call on a brand-new object
@@ -22,14 +31,16 @@ structure Prec (K : Type) where
   A : Arith K
   bits : K → UInt64 × UInt64
   ofInts : Int → Int → K
+  /-- `PartialEq for Complex<F>`: IEEE `==` on both components -/
+  ceq : K → K → Bool
   bound : Nat
 
 def prec64 : Prec C64 :=
   { A := arith64, bits := fun c => (c.re.toBits, c.im.toBits), ofInts := fun x y => ⟨f64OfInt x, f64OfInt y⟩,
-    bound := 1000000000000 }
+    ceq := fun a b => a.re == b.re && a.im == b.im, bound := 1000000000000 }
 def prec32 : Prec C32 :=
   { A := arith32, bits := fun c => (c.re.toBits.toUInt64, c.im.toBits.toUInt64), ofInts := fun x y => ⟨f32OfInt x, f32OfInt y⟩,
-    bound := 1000 }
+    ceq := fun a b => a.re == b.re && a.im == b.im, bound := 1000 }
 
 def fnvStep (h x : UInt64) : UInt64 := (h ^^^ x) * 0x100000001b3
 def fnvInit : UInt64 := 0xcbf29ce484222325
@@ -58,6 +69,7 @@ inductive POp where
   | fm (a b : Array Int) (n : Nat)
   | fmx (a b : Array Int) (n : Nat)
   | fmi (a b : Array Int) (n : Nat) (res : List Int)
+  | fx (e : SExpr) (vs : List (Array Int)) (n : Nat) (res : List Int)
 
 /-- State of the comma-list scanner: values so far, current magnitude, sign, digit seen, still well-formed. -/
 structure Scan where
@@ -83,8 +95,59 @@ def parseVec? (s : String) : Option (Array Int) :=
   let st := st.push
   if st.ok then some st.out else none
 
+/-- `s<k>`-style tokens: the integer after the prefix. -/
+def afterPrefix? (pre tok : String) : Option Int :=
+  if tok.startsWith pre then parseInt? (tok.drop pre.length).toString else none
+
+/-- One token of the reverse Polish expression applied to the stack. -/
+def rpnStep (st : Option (List SExpr)) (tok : String) : Option (List SExpr) :=
+  match st with
+  | none => none
+  | some stack =>
+    let bin (f : SExpr → SExpr → SExpr) : Option (List SExpr) :=
+      match stack with
+      | b :: a :: rest => some (f a b :: rest)
+      | _ => none
+    let un (f : SExpr → SExpr) : Option (List SExpr) :=
+      match stack with
+      | a :: rest => some (f a :: rest)
+      | _ => none
+    match tok with
+    | "Z" | "Dz" => some (.zero :: stack)
+    | "O" => some (.one :: stack)
+    | "I" => some (.ci :: stack)
+    | "+" | "+=" => bin .add
+    | "-" | "-=" => bin .sub
+    | "*" | "*=" => bin .mul
+    | "/" | "/=" => bin .div
+    | "neg" => un .neg
+    | "conj" => un .conj
+    | "abs2" => un .abs2
+    | "absq" => un .absq
+    | _ =>
+      match parseNat? tok with
+      | some i => some (.leaf i :: stack)
+      | none =>
+        match (if tok.startsWith "cf" then parseNat? (tok.drop 2).toString
+               else if tok.startsWith "c" then parseNat? (tok.drop 1).toString else none) with
+        | some i => some (.leaf i :: stack)
+        | none =>
+          match afterPrefix? "s=" tok <|> afterPrefix? "s" tok with
+          | some k => un (.scale k)
+          | none =>
+            match afterPrefix? "d=" tok <|> afterPrefix? "d" tok with
+            | some k => un (.divS k)
+            | none => none
+
+def parseRpn? (s : String) : Option SExpr :=
+  match (s.splitOn ",").foldl rpnStep (some []) with
+  | some [e] => some e
+  | _ => none
+
 def parseOp? (s : String) : Option POp :=
   match tokens s with
+  | "fx" :: rpn :: n :: r :: v :: vs => do
+    pure (POp.fx (← parseRpn? rpn) (← (v :: vs).mapM parseVec?) (← parseNat? n) ((← parseVec? r).toList))
   | ["u", n] => (parseNat? n).map POp.u
   | ["m", a, b] => do pure (POp.m (← parseVec? a) (← parseVec? b))
   | ["mi", a, b, r] => do pure (POp.mi (← parseVec? a) (← parseVec? b) ((← parseVec? r).toList))
@@ -110,6 +173,20 @@ def cplx {K} (P : Prec K) (xs ys : Array Int) : Array K :=
 
 def fitsI32 (v : Array Int) : Bool := v.all (fun x => -2147483648 ≤ x && x ≤ 2147483647)
 
+/-- leaves in range, scalars inside `i32`, no division by the scalar zero -/
+def Rlib.Fft.SExpr.wellFormed (cnt : Nat) : SExpr → Bool
+  | .leaf i => i < cnt
+  | .zero | .one | .ci => true
+  | .add a b | .sub a b | .mul a b | .div a b => a.wellFormed cnt && b.wellFormed cnt
+  | .neg a | .conj a | .abs2 a | .absq a => a.wellFormed cnt
+  | .scale k a => -2147483648 ≤ k && k ≤ 2147483647 && a.wellFormed cnt
+  | .divS k a => -2147483648 ≤ k && k ≤ 2147483647 && k != 0 && a.wellFormed cnt
+
+/-- sizes chosen by the two forward transforms of a composite agree (`n = 0`: each `fft(v, 0)` chooses its own) -/
+def compositeOk (a b : Array Int) (n : Nat) : Bool :=
+  let na := fftSize a.size n
+  fitsI32 a && fitsI32 b && na == fftSize b.size n && isPow2 na && na ≤ 16777216 && a.size ≤ na && b.size ≤ na
+
 /-- Does the harness make this call at all? (preconditions written as `debug_assert!` in fft.rs, i32 inputs) -/
 def POp.valid : POp → Bool
   | .u n => n ≠ 0 && n ≤ 16777216
@@ -119,9 +196,10 @@ def POp.valid : POp → Bool
   | .fi v n rx ry => fitsI32 v && fitsI32 rx && fitsI32 ry && rx.size == ry.size && v.size ≤ fftSize v.size n && n ≤ 16777216
   | .inv xs ys => fitsI32 xs && fitsI32 ys && xs.size == ys.size && isPow2 xs.size
   | .ii xs ys _ => fitsI32 xs && fitsI32 ys && xs.size == ys.size && isPow2 xs.size
-  | .fm a b n => fitsI32 a && fitsI32 b && isPow2 n && n ≤ 16777216 && a.size ≤ n && b.size ≤ n
-  | .fmx a b n => fitsI32 a && fitsI32 b && isPow2 n && n ≤ 16777216 && a.size ≤ n && b.size ≤ n
-  | .fmi a b n _ => fitsI32 a && fitsI32 b && isPow2 n && n ≤ 16777216 && a.size ≤ n && b.size ≤ n
+  | .fm a b n => compositeOk a b n
+  | .fmx a b n => compositeOk a b n
+  | .fmi a b n _ => compositeOk a b n
+  | .fx e vs n _ => isPow2 n && n ≤ 16777216 && vs.length ≤ 10 && vs.all (fun v => fitsI32 v && v.size ≤ n) && e.wellFormed vs.length
 
 /-- The model-level call a protocol op denotes. -/
 def POp.toOp {K} (P : Prec K) : POp → Op K
@@ -135,6 +213,7 @@ def POp.toOp {K} (P : Prec K) : POp → Op K
   | .fm a b n => .fftMulInv a b n
   | .fmx a b n => .fftMulInvFresh a b n
   | .fmi a b n res => .fftMulInvInto a b n res
+  | .fx e vs n res => .spectral e vs n res
 
 /-- Perform one call on the model object (`Rlib.Fft.call` / `Rlib.Fft.step`, the definitions the
     theorems of `Props/C04.lean` are about). -/
@@ -162,6 +241,26 @@ def inEnvelope {K} (P : Prec K) (a b : Array Int) : Bool :=
 
 def smallRes (res : List Int) : Bool := res.all (fun x => x.natAbs ≤ 1000000000000000)
 
+/-- The envelope carried through a spectral expression: `(S, L)` = (bound on the coefficient magnitudes with every product
+    charged `max(S₁,S₂)² · min(L₁,L₂)` — for a single product of two operands exactly the property's literal envelope —,
+    bound on the number of non-zero coefficients). -/
+def Rlib.Fft.SExpr.weight (n : Nat) (vs : List (Array Int)) : SExpr → Nat × Nat
+  | .leaf i => (maxAbs (vs.getD i #[]), max 1 (vs.getD i #[]).size)
+  | .zero => (0, 1)
+  | .one | .ci => (1, 1)
+  | .add a b | .sub a b =>
+    let (s1, l1) := a.weight n vs; let (s2, l2) := b.weight n vs
+    (s1 + s2, min n (l1 + l2))
+  | .mul a b | .div a b =>
+    let (s1, l1) := a.weight n vs; let (s2, l2) := b.weight n vs
+    (max s1 s2 * max s1 s2 * min l1 l2, min n (l1 * l2))
+  | .neg a | .conj a => a.weight n vs
+  | .abs2 a | .absq a =>
+    let (s1, l1) := a.weight n vs
+    (s1 * s1 * l1, min n (l1 * l1))
+  | .scale k a => let (s1, l1) := a.weight n vs; (k.natAbs * s1, l1)
+  | .divS _ a => a.weight n vs
+
 /-- Cyclic (size `n`) folding of a coefficient list: `out[i] = ∑ₖ c[i + k·n]`; for `|c| ≤ n` it is `c` followed by zeros. -/
 def cyc (n : Nat) (c : List Int) : List Int :=
   if n = 0 then [] else
@@ -172,9 +271,10 @@ def expected (op : POp) : Option (List Int) :=
   match op with
   | .m a b => some (conv a b)
   | .mi a b res => some (addPrefix res (conv a b))
-  | .fm a b n => some (cyc n (conv a b))
-  | .fmx a b n => some (cyc n (conv a b))
-  | .fmi a b n res => some (addPrefix res (cyc n (conv a b)))
+  | .fm a b n => some (cyc (fftSize a.size n) (conv a b))
+  | .fmx a b n => some (cyc (fftSize a.size n) (conv a b))
+  | .fmi a b n res => some (addPrefix res (cyc (fftSize a.size n) (conv a b)))
+  | .fx e vs n res => (e.expected n vs).map (addPrefix res)
   | _ => none
 
 def padTo (xs : List Int) (n : Nat) : List Int := xs ++ List.replicate (n - xs.length) 0
@@ -188,11 +288,13 @@ def POp.operands? : POp → Option (Array Int × Array Int × List Int)
   | _ => none
 
 /-- Is the value of this call fixed by the property?  (a value call inside the literal envelope
-    `max²·min(len) ≤ bound`; the composites need non-empty operands: `fft(&[], n)` is legal but not a product) -/
+    `max²·min(len) ≤ bound`; the composites need non-empty operands: `fft(&[], n)` is legal but not a product;
+    a spectral expression: envelope carried through the expression, a real integer sequence as its meaning) -/
 def valueInDomain {K} (P : Prec K) (op : POp) : Bool :=
   match op, op.operands? with
   | .m _ _, some (a, b, _) => inEnvelope P a b
   | .mi _ _ _, some (a, b, res) => inEnvelope P a b && smallRes res
+  | .fx e vs n res, _ => vs.all (fun v => v.size ≠ 0) && (e.weight n vs).1 ≤ P.bound && smallRes res
   | _, some (a, b, res) => a.size ≠ 0 && b.size ≠ 0 && inEnvelope P a b && smallRes res
   | _, none => false
 
@@ -200,11 +302,14 @@ def valueInDomain {K} (P : Prec K) (op : POp) : Bool :=
     the envelope is still constrained by history independence (`fresh=same`, Level A holds for every input). -/
 def specOf (exp : Option (List Int)) (inDom : Bool) : POp → Option String
   | .u n => if isPow2 n then some "ok" else none
-  | .f v n => let n := fftSize v.size n; if isPow2 n then some s!"len={n} fresh=same" else none
-  | .fi v n rx _ => let n := fftSize v.size n; if isPow2 n then some s!"len={rx.size} fresh=same tail=kept" else none
+  | .f v n => let n := fftSize v.size n; if isPow2 n then some s!"len={n} fresh=same eq=true ne=false peq=ok" else none
+  | .fi v n rx _ => let n := fftSize v.size n; if isPow2 n then some s!"len={rx.size} fresh=same tail=kept add=ok" else none
   | .inv _ _ => some "fresh=same"
-  | .ii _ _ _ => some "fresh=same tail=kept"
-  | _ => if inDom then exp.map (fun e => s!"{showIVec e} fresh=same oracle=exact") else some "fresh=same"
+  | .ii _ _ _ => some "fresh=same tail=kept add=ok"
+  | _ =>
+    match exp, inDom with
+    | some e, true => some s!"{showIVec e} fresh=same oracle=exact"
+    | _, _ => some "fresh=same"
 
 def outLen {K} : POut K → Nat
   | .ivec xs => xs.length
@@ -216,44 +321,70 @@ def outLen {K} : POut K → Nat
     1e-16 noise) and out-of-envelope products are NOT verdict material: their raw is just the length; with
     `C04_DIAG=1` (diagnostic run of `checks/C04.py: extra`, recorded in the evidence, never a verdict) the full
     digests are printed instead. -/
-def rawOf {K} (P : Prec K) (diag inDom : Bool) (op : POp) (used : POut K) : String :=
+def rawOf {K} (P : Prec K) (diag valued : Bool) (op : POp) (used : POut K) : String :=
   match used with
   | .unit | .panic _ | .invalid => showOut P used
   | _ =>
     if diag then showOut P used
     else match op with
       | .f _ _ | .fi _ _ _ _ | .inv _ _ | .ii _ _ _ => s!"len={outLen used}"
-      | _ => if inDom then showOut P used else s!"len={outLen used}"
+      | _ => if valued then showOut P used else s!"len={outLen used}"
 
 /-- The view of a result through the property's eyes.  For the calls whose VALUE the property fixes
     (`inDom`) the value part of the view is the exact value (`exp`): the theorems are about exact arithmetic and
     about history independence; the binary64/binary32 instance executed here has the same rounding errors as the
     Rust code (that is what the raw comparison checks), so a rounding failure inside the envelope must show up as
     "implementation ≠ specification", not as "model ≠ specification" (the exact instance `arithC` over ℂ is not
-    executable).  The `fresh=` / `tail=` parts are always computed by actually running the model. -/
-def viewOf {K} (P : Prec K) (exp : Option (List Int)) (inDom : Bool) (op : POp) (used fresh : POut K) : String :=
+    executable).  The `fresh=` / `tail=` / `add=` / `eq=` parts are always computed by actually running the model
+    (`base` = what the non-accumulating sibling — `fft` for `fft_into`, `fft_inv` for `fft_inv_into` — returns on a
+    brand-new object). -/
+def viewOf {K} (P : Prec K) (exp : Option (List Int)) (inDom : Bool) (op : POp) (used fresh base : POut K) : String :=
   let rawU := showOut P used
   let same := if rawU == showOut P fresh then "fresh=same" else "fresh=diff"
   match op, used with
   | .u _, _ => rawU
   | _, .panic _ => rawU
   | _, .invalid => rawU
-  | .f _ _, .cvec xs => s!"len={xs.size} {same}"
+  | .f _ _, .cvec xs =>
+    let (eq, ne) := match fresh with
+      | .cvec ys => (xs.size == ys.size && (List.range xs.size).all (fun i => P.ceq (xs.getD i P.A.zero) (ys.getD i P.A.zero)),
+                     xs.size != ys.size || (List.range xs.size).any (fun i => !P.ceq (xs.getD i P.A.zero) (ys.getD i P.A.zero)))
+      | _ => (false, true)
+    -- `peq`: `==` / `!=` of every pair of bins against the component-wise comparison — an oracle inside the harness;
+    -- the model's `PartialEq` IS the component-wise comparison
+    s!"len={xs.size} {same} eq={eq} ne={ne} peq=ok"
   | .fi v n rx ry, .cvec xs =>
     -- entries of the destination beyond the transform size must be untouched (bit for bit)
     let k := fftSize v.size n
-    let keep := ((xs.toList.drop k).map P.bits) == (((cplx P rx ry).toList.drop k).map P.bits)
-    s!"len={xs.size} {same} tail={if keep then "kept" else "changed"}"
+    let dest := cplx P rx ry
+    let keep := ((xs.toList.drop k).map P.bits) == ((dest.toList.drop k).map P.bits)
+    -- on the common prefix: destination `+=` what `fft(v, n)` returns
+    let add := match base with
+      | .cvec b =>
+        xs.size == dest.size && (List.range dest.size).all (fun i =>
+          let want := if i < b.size then P.A.add (dest.getD i P.A.zero) (b.getD i P.A.zero) else dest.getD i P.A.zero
+          P.bits (xs.getD i P.A.zero) == P.bits want)
+      | _ => false
+    s!"len={xs.size} {same} tail={if keep then "kept" else "changed"} add={if add then "ok" else "wrong"}"
   | .inv _ _, _ => same
   | .ii xs _ res, .ivec out =>
     let keep := out.length == res.length && out.drop xs.size == res.drop xs.size
-    s!"{same} tail={if keep then "kept" else "changed"}"
+    let add := match base with
+      | .ivec b => out == addPrefix res b
+      | _ => false
+    s!"{same} tail={if keep then "kept" else "changed"} add={if add then "ok" else "wrong"}"
   | .ii _ _ _, _ => same
   | _, .ivec _ =>
     match exp, inDom with
     | some e, true => s!"{showIVec e} {same} oracle=exact"
     | _, _ => same
   | _, _ => rawU
+
+/-- the non-accumulating sibling of an accumulate-into call -/
+def POp.sibling? : POp → Option POp
+  | .fi v n _ _ => some (.f v n)
+  | .ii xs ys _ => some (.inv xs ys)
+  | _ => none
 
 /-- How the measured object is obtained (third header token, default `new`):
     `new` = `FFT::new()`, `default` = `FFT::default()`, `clone` = `FFT::new().clone()`,
@@ -265,33 +396,77 @@ def Ctor.parse? : String → Option Ctor
   | "new" => some .new | "default" => some .default | "clone" => some .clone | "histclone" => some .histclone
   | _ => none
 
-def runCase {K} (P : Prec K) (diag : Bool) (ctor : Ctor) (ops : List POp) : String :=
-  match ops.reverse with
+/-- One step of a case: a call on one of the 4 objects, or a pool operation. -/
+inductive PStep where
+  | call (k : Nat) (op : POp)
+  | clone (j k : Nat) | cloneFrom (j k : Nat) | dflt (k : Nat) | fresh (k : Nat) | take (j k : Nat)
+
+def poolSize : Nat := 4
+
+def parseIdx? (s : String) : Option Nat :=
+  match parseNat? s with
+  | some k => if k < poolSize then some k else none
+  | none => none
+
+def parseStep? (s : String) : Option PStep :=
+  match tokens s with
+  | ["cl", j, k] => do pure (.clone (← parseIdx? j) (← parseIdx? k))
+  | ["cf", j, k] => do pure (.cloneFrom (← parseIdx? j) (← parseIdx? k))
+  | ["df", k] => do pure (.dflt (← parseIdx? k))
+  | ["nw", k] => do pure (.fresh (← parseIdx? k))
+  | ["tk", j, k] => do pure (.take (← parseIdx? j) (← parseIdx? k))
+  | t :: rest =>
+    if t.startsWith "@" then do
+      let k ← parseIdx? (t.drop 1).toString
+      pure (.call k (← parseOp? (" ".intercalate rest)))
+    else (parseOp? s).map (.call 0)
+  | [] => none
+
+/-- The model-level pool step (`Rlib.Fft.poolStep`); a call the harness does not make leaves everything as it is. -/
+def PStep.run {K} (P : Prec K) (pool : Array (State K)) : PStep → Array (State K)
+  | .call k op => if op.valid then poolStep P.A pool (.call k (op.toOp P)) else pool
+  | .clone j k => poolStep P.A pool (.clone j k)
+  | .cloneFrom j k => poolStep P.A pool (.cloneFrom j k)
+  | .dflt k => poolStep P.A pool (.default k)
+  | .fresh k => poolStep P.A pool (.fresh k)
+  | .take j k => poolStep P.A pool (.take j k)
+
+def runCase {K} (P : Prec K) (diag : Bool) (ctor : Ctor) (steps : List PStep) : String :=
+  match steps.reverse with
   | [] => "M INVALID | V INVALID | S any"
-  | last :: histRev =>
+  | lastStep :: histRev =>
     let s0 : State K := match ctor with
       | .new | .histclone => new P.A
       | .default => Fft.default P.A
       | .clone => Fft.clone (new P.A)
-    let s := histRev.reverse.foldl (fun s op => (pcall P s op).1) s0
-    let s := match ctor with
-      | .histclone => Fft.clone s
-      | _ => s
-    let used := (pcall P s last).2
-    let fresh := (pcall P (new P.A) last).2
-    let inDom := valueInDomain P last
-    let exp := if inDom then expected last else none
-    let spec := match used with
-      | .invalid => none
-      | .panic _ => (match last with | .u _ => specOf exp inDom last | _ => none)
-      | _ => specOf exp inDom last
-    answer3 (rawOf P diag inDom last used) (viewOf P exp inDom last used fresh) (spec.getD "any")
+    let pool0 : Array (State K) := #[s0, new P.A, new P.A, new P.A]
+    let pool := histRev.reverse.foldl (fun pl st => st.run P pl) pool0
+    match lastStep with
+    | .call k last =>
+      let s := pool.getD k (new P.A)
+      let s := match ctor with
+        | .histclone => Fft.clone s
+        | _ => s
+      let used := (pcall P s last).2
+      let fresh := (pcall P (new P.A) last).2
+      let base := match last.sibling? with
+        | some sib => (pcall P (new P.A) sib).2
+        | none => .unit
+      let inDom := valueInDomain P last
+      let exp := if inDom then expected last else none
+      let valued := inDom && exp.isSome
+      let spec := match used with
+        | .invalid => none
+        | .panic _ => (match last with | .u _ => specOf exp inDom last | _ => none)
+        | _ => specOf exp inDom last
+      answer3 (rawOf P diag valued last used) (viewOf P exp inDom last used fresh base) (spec.getD "any")
+    | _ => answer3 "ok" "ok" "ok"
 
 def handle (diag : Bool) (line : String) : String :=
   match splitOps line with
   | [] => badLine line
   | hdr :: ops =>
-    match ops.mapM parseOp? with
+    match ops.mapM parseStep? with
     | none => badLine line
     | some ops =>
       match tokens hdr with
